@@ -195,6 +195,18 @@ func obsSeq[T any](s hseq.Seq[T]) []entryObs {
 	for _, t := range s {
 		r = append(r, obsEntry(t))
 	}
+	// the listing belongs to the caller: once observed it is rearranged and overwritten in place (and its spare
+	// capacity written), so an unfolding that hands out shared memory shows in every later listing of the type
+	for i, j := 0, len(s)-1; i < j; i, j = i+1, j-1 {
+		s[i], s[j] = s[j], s[i]
+	}
+	if len(s) > 0 {
+		var zero hseq.Type[T]
+		s[0] = zero
+		if full := s[:cap(s)]; len(full) > len(s) {
+			full[len(s)] = zero
+		}
+	}
 	return r
 }
 
